@@ -1145,8 +1145,44 @@ func (f *Frugal) validateTypedefs() error {
 			return fmt.Errorf("Invalid alias %s, type %s doesn't exist",
 				typedef.Name, typedef.Type.Name)
 		}
+		if f.typedefCycle(typedef.Type, map[string]bool{typedef.Name: true}) {
+			return fmt.Errorf("Invalid alias %s, its definition refers back to itself",
+				typedef.Name)
+		}
 	}
 	return nil
+}
+
+// typedefCycle reports whether expanding t, following typedefs the way
+// UnderlyingType does and descending into container element types, leads back
+// to a typedef that is already being expanded.
+func (f *Frugal) typedefCycle(t *Type, expanding map[string]bool) bool {
+	if t == nil {
+		return false
+	}
+	if f.typedefCycle(t.KeyType, expanding) || f.typedefCycle(t.ValueType, expanding) {
+		return true
+	}
+	typedefIndex := f.typedefIndex
+	key := t.ParamName()
+	if include := t.IncludeName(); include != "" {
+		parsed, ok := f.ParsedIncludes[include]
+		if !ok {
+			return false
+		}
+		typedefIndex = parsed.typedefIndex
+		key = include + "." + key
+	}
+	typedef, ok := typedefIndex[t.ParamName()]
+	if !ok {
+		return false
+	}
+	if expanding[key] {
+		return true
+	}
+	expanding[key] = true
+	defer delete(expanding, key)
+	return f.typedefCycle(typedef.Type, expanding)
 }
 
 func (f *Frugal) validateStructs() error {
